@@ -88,6 +88,8 @@ type AuthSpec struct {
 	Pass     string   `json:"pass"`
 	FailPass string   `json:"fail_pass,omitempty"`
 	FailErr  *ErrSpec `json:"fail_err,omitempty"`
+	// FailTrue: the failing validator returns (ctx, true, err): an error is a failure whatever the boolean says
+	FailTrue bool `json:"fail_true,omitempty"`
 }
 
 func (a *AuthSpec) Verdict(user, pass string) string {
@@ -109,15 +111,19 @@ type Config struct {
 	Auth      *AuthSpec         `json:"auth,omitempty"`
 	Params    map[string]string `json:"params,omitempty"`
 	HasParams bool              `json:"has_params,omitempty"` // pass a (possibly empty) map instead of nil
-	Version   string            `json:"version,omitempty"`
-	Limit     int               `json:"limit,omitempty"`
-	SetLimit  bool              `json:"set_limit,omitempty"`
-	TLS       string            `json:"tls,omitempty"` // "" | empty | cert | cert13
-	MWs       []MW              `json:"mws,omitempty"`
-	Term      *MW               `json:"term,omitempty"`
-	Table     Table             `json:"table"`
-	Retain    bool              `json:"retain,omitempty"`
-	NoParse   bool              `json:"no_parse,omitempty"`
+	// Earlier: a map handed to an earlier GlobalParameters call, before the one carrying Params (an
+	// application that layers defaults and overrides); it stays the application's as well
+	Earlier    map[string]string `json:"earlier,omitempty"`
+	HasEarlier bool              `json:"has_earlier,omitempty"`
+	Version    string            `json:"version,omitempty"`
+	Limit      int               `json:"limit,omitempty"`
+	SetLimit   bool              `json:"set_limit,omitempty"`
+	TLS        string            `json:"tls,omitempty"` // "" | empty | cert | cert13
+	MWs        []MW              `json:"mws,omitempty"`
+	Term       *MW               `json:"term,omitempty"`
+	Table      Table             `json:"table"`
+	Retain     bool              `json:"retain,omitempty"`
+	NoParse    bool              `json:"no_parse,omitempty"`
 	// OptSeed != 0 permutes the order in which the options are handed to NewServer.
 	OptSeed int `json:"opt_seed,omitempty"`
 	// CustomCaches: statement and portal caches are supplied through the Statements / Portals options.
@@ -138,14 +144,15 @@ type ParamObs struct {
 
 // CtxObs is what a callback observed in its context.
 type CtxObs struct {
-	MWKeys  []string          `json:"mw_keys,omitempty"` // value found under middleware key i ("" = absent)
-	Client  map[string]string `json:"client,omitempty"`
-	Server  map[string]string `json:"server,omitempty"`
-	Remote  string            `json:"remote,omitempty"`
-	TypeMap bool              `json:"type_map,omitempty"`
-	User    string            `json:"user,omitempty"`
-	Done    bool              `json:"done,omitempty"`       // ctx already cancelled while the callback runs
-	Stale   int               `json:"stale_live,omitempty"` // contexts of earlier commands that are not yet Done
+	MWKeys   []string          `json:"mw_keys,omitempty"` // value found under middleware key i ("" = absent)
+	Client   map[string]string `json:"client,omitempty"`
+	Server   map[string]string `json:"server,omitempty"`
+	Remote   string            `json:"remote,omitempty"`
+	TypeMap  bool              `json:"type_map,omitempty"`
+	User     string            `json:"user,omitempty"`
+	Done     bool              `json:"done,omitempty"`       // ctx already cancelled while the callback runs
+	Deadline bool              `json:"deadline,omitempty"`   // ctx carries a deadline
+	Stale    int               `json:"stale_live,omitempty"` // contexts of earlier commands that are not yet Done
 }
 
 // Event is one entry of the callback trace.
@@ -217,12 +224,14 @@ type Env struct {
 	gates    map[string]chan struct{}
 	panics   []PanicRec
 
-	serveDone chan error
-	stopOnce  sync.Once
-	stopErr   error
-	stopOK    bool
-	UserMap   wire.Parameters // the map handed to GlobalParameters
-	userCopy  map[string]string
+	serveDone   chan error
+	stopOnce    sync.Once
+	stopErr     error
+	stopOK      bool
+	UserMap     wire.Parameters // the map handed to GlobalParameters
+	EarlierMap  wire.Parameters
+	earlierCopy map[string]string
+	userCopy    map[string]string
 }
 
 var (
@@ -323,7 +332,24 @@ func Start(cfg Config) *Env {
 			e.UserMap[wire.ParameterStatus(k)] = v
 			e.userCopy[k] = v
 		}
-		opts0 = append(opts0, opt{fn: wire.GlobalParameters(e.UserMap)})
+		main := wire.GlobalParameters(e.UserMap)
+		if cfg.HasEarlier {
+			e.EarlierMap = wire.Parameters{}
+			e.earlierCopy = map[string]string{}
+			for k, v := range cfg.Earlier {
+				e.EarlierMap[wire.ParameterStatus(k)] = v
+				e.earlierCopy[k] = v
+			}
+			first := wire.GlobalParameters(e.EarlierMap)
+			opts0 = append(opts0, opt{fn: func(s *wire.Server) error {
+				if err := first(s); err != nil {
+					return err
+				}
+				return main(s)
+			}})
+		} else {
+			opts0 = append(opts0, opt{fn: main})
+		}
 	}
 	if cfg.Version != "" {
 		opts0 = append(opts0, opt{fn: wire.Version(cfg.Version)})
@@ -495,6 +521,16 @@ func (e *Env) UserMapIntact() (bool, string) {
 	}
 	e.mu.Lock()
 	defer e.mu.Unlock()
+	if e.earlierCopy != nil {
+		if len(e.EarlierMap) != len(e.earlierCopy) {
+			return false, fmt.Sprintf("the map of the earlier GlobalParameters call has %d entries, had %d: %v", len(e.EarlierMap), len(e.earlierCopy), e.EarlierMap)
+		}
+		for k, v := range e.earlierCopy {
+			if got, ok := e.EarlierMap[wire.ParameterStatus(k)]; !ok || got != v {
+				return false, fmt.Sprintf("earlier map key %q: %q (present=%v), was %q", k, got, ok, v)
+			}
+		}
+	}
 	if len(e.UserMap) != len(e.userCopy) {
 		return false, fmt.Sprintf("user map has %d entries, had %d: %v", len(e.UserMap), len(e.userCopy), e.UserMap)
 	}
@@ -615,6 +651,7 @@ func (e *Env) observe(ctx context.Context, command bool) *CtxObs {
 		User:    wire.AuthenticatedUsername(ctx),
 		Done:    ctx.Err() != nil,
 	}
+	_, o.Deadline = ctx.Deadline()
 	if a := wire.RemoteAddress(ctx); a != nil {
 		o.Remote = a.String()
 	}
@@ -703,7 +740,7 @@ func (e *Env) validate(ctx context.Context, database, username, password string)
 		err := a.FailErr.Build()
 		errFields(&ev, err)
 		e.add(ev)
-		return ctx, false, err
+		return ctx, a.FailTrue, err
 	case "accept":
 		ev.OpK = "accept"
 		e.add(ev)
